@@ -105,9 +105,10 @@ var properties = map[string]propSpec{
 			{Engine: "A", Scenario: "transfer", Quick: 8, Thorough: 100},
 			{Engine: "A", Scenario: "general", Quick: 8, Thorough: 100},
 			{Engine: "A", Scenario: "stale-queue-reelection", Quick: 20, Thorough: 200},
+			{Engine: "A", Scenario: "slow-fsm", Quick: 10, Thorough: 100},
 		},
 		Rule:       "directed scenario (leader deposed with an update pending at index k, index k overwritten by the next leader but not known committed, old leader re-elected by timeout-now so that its no-op lands at k+1) and seeded live-cluster runs with 4-8 client goroutines submitting Update/Read/DirtyRead/Barrier tasks to any node, with leader changes, partitions, restarts, transfers, self-demotion; history recorded at the API boundary (call before submit, return after Done; operations that never return stay open); non-trivial if at least 300 client operations completed and at least one leader change happened; distinct = distinct abstract trace",
-		Nontrivial: all(ge("client-ops", 300), ge("leaders-elected", 2)),
+		Nontrivial: either(all(ge("client-ops", 300), ge("leaders-elected", 2)), all(ge("fault:slow-state-machine", 1), ge("leader-barriers-and-reads-checked-against-applied-index", 5))),
 		MinQuick:   20, MinThorough: 200,
 		Counters:    []string{"porcupine-ok", "porcupine-operations", "porcupine-timeout", "client-ops", "client-ops-open", "reads-checked", "leader-reads-checked", "real-time-pairs-covered", "global-sequence-length", "leaders-elected", "transfers-succeeded"},
 		Prefixes:    []string{"client-ret:", "client-op:"},
